@@ -14,10 +14,11 @@ EXTENDS Contract, Json, SequencesExt
 CONSTANT TraceFile
 Trace == ndJsonDeserialize(TraceFile)
 
-VARIABLE l        \* next line of the trace
-vars == <<cvars, l>>
+VARIABLES l,            \* next line of the trace
+          plog, prets   \* executions and results of the previous scenario / history (twin rule of C09)
+vars == <<cvars, l, plog, prets>>
 
-Init == /\ l = 1 /\ scn = NoScn /\ gens = <<>> /\ log = <<>> /\ rets = <<>> /\ redef = NoRedef /\ kinds = {}
+Init == /\ l = 1 /\ plog = <<>> /\ prets = <<>> /\ scn = NoScn /\ gens = <<>> /\ log = <<>> /\ rets = <<>> /\ redef = NoRedef /\ kinds = {}
 
 IsEvent(name) == l <= Len(Trace) /\ Trace[l].ev = name /\ l' = l + 1
 
@@ -26,31 +27,47 @@ TraceReset ==
   /\ IsEvent("reset")
   /\ scn' = Trace[l].scn
   /\ kinds' = IF Trace[l].scn.sid = scn.sid /\ Trace[l].rep > 0 THEN kinds ELSE {}
-  /\ gens' = <<>> /\ log' = <<>> /\ rets' = <<>> /\ redef' = NoRedef
+  \* a step of a history on shared objects keeps the executions and results seen so far
+  /\ IF Trace[l].scn.carry THEN UNCHANGED <<log, rets, plog, prets>>
+     ELSE log' = <<>> /\ rets' = <<>> /\ plog' = log /\ prets' = rets
+  /\ gens' = <<>> /\ redef' = NoRedef
 
 TraceGen ==
   /\ IsEvent("gen")
   /\ gens' = Append(gens, Trace[l])
-  /\ UNCHANGED <<scn, log, rets, redef, kinds>>
+  /\ UNCHANGED <<scn, log, rets, redef, kinds, plog, prets>>
 
 TraceExec ==
   /\ IsEvent("exec")
   /\ log' = Append(log, Trace[l])
-  /\ UNCHANGED <<scn, gens, rets, redef, kinds>>
+  /\ UNCHANGED <<scn, gens, rets, redef, kinds, plog, prets>>
 
 TraceRedef ==
   /\ IsEvent("redef")
   /\ redef' = Trace[l]
-  /\ UNCHANGED <<scn, gens, log, rets, kinds>>
+  /\ UNCHANGED <<scn, gens, log, rets, kinds, plog, prets>>
 
 TraceRet ==
   /\ IsEvent("ret")
   /\ rets' = Append(rets, Trace[l])
-  /\ kinds' = IF Trace[l].phase = 1 THEN kinds \cup {Class(Trace[l].kind)} ELSE kinds
-  /\ UNCHANGED <<scn, gens, log, redef>>
+  /\ kinds' = IF Trace[l].phase = scn.phase0 THEN kinds \cup {Class(Trace[l].kind)} ELSE kinds
+  /\ UNCHANGED <<scn, gens, log, redef, plog, prets>>
 
 Next == TraceReset \/ TraceGen \/ TraceExec \/ TraceRedef \/ TraceRet
 Spec == Init /\ [][Next]_vars
+
+\* C09, twin rule: a history marked twinOf = 1 repeats the previous history without its Redefine
+\* steps (same pool, fresh objects, same phase numbers); since Redefine is pure planning, every phase
+\* must show exactly the same executions and the same result
+Ex(e) == <<e.fn, e.args, e.outs, e.fails, e.errid>>
+PhaseExecs(lg, p) == LET q == SelectSeq(lg, LAMBDA e : e.phase = p) IN [i \in DOMAIN q |-> Ex(q[i])]
+C09twin == scn.twinOf = 1 =>
+   /\ \A i \in DOMAIN log : i \in DOMAIN plog /\ Ex(log[i]) = Ex(plog[i]) /\ log[i].phase = plog[i].phase
+   /\ \A c \in DOMAIN rets :
+        /\ PhaseExecs(log, rets[c].phase) = PhaseExecs(plog, rets[c].phase)
+        /\ \E d \in DOMAIN prets : /\ prets[d].phase = rets[c].phase /\ prets[d].kind = rets[c].kind
+                                    /\ prets[d].errid = rets[c].errid /\ prets[d].outs = rets[c].outs
+                                    /\ prets[d].valtok = rets[c].valtok
 
 \* every line was consumed
 Accepted == TLCGet("stats").diameter - 1 = Len(Trace)
